@@ -15,7 +15,12 @@ RULE = ("cases = committed corpus + seeded generator of harness/src/bin/c13d.rs.
         "spot / perpetual / 3 future expiries / 18 option contracts (so instruments repeat), the six Gateio ids listed twice in the exchange pool (sibling connectors of one family "
         "are the likely confusion), 0-2 verbatim repeats, shuffled; 35 %: part of the first batch again in the last (same key in several batches = separate connections); 15 %: "
         "the malformed stream, 1-2 arbitrary (42 exchanges x 6 sub kinds x 4 instrument kind classes) subscriptions inserted somewhere; 4 % (thorough 10 %): batches of up to 75 "
-        "subscriptions over 40 assets so that validated batches exceed 20 elements. A case is distinct by the SHA-1 of its op lines and non-trivial when two of its ops produce "
+        "subscriptions over 40 assets so that validated batches exceed 20 elements. After the random cases a separately seeded CONFIGURATION-SHAPE family of N/5 cases (ids `cfgk<n>`, plus the fixed "
+        "`cfgk-every-arm`; all earlier cases unchanged): op `initk` = the SAME DynamicStreams::init instantiated with Keyed<InstrumentIndex, MarketDataInstrument> (the instrument type of "
+        "index_market_data_subscription_batches; token `<key>~<instrument>`), batches as in the random family (1-3 batches, repeats, part of the first batch again in the last, 12 % an "
+        "unsupported subscription, 3 % / 8 % long batches), keys either a proper index over the op's distinct (exchange, instrument) numbered in shuffled order from offset 0 / 7 / 1000 "
+        "(key order against instrument order and subscription order) or drawn from a pool of 1 / 2 / 4 keys (one instrument under several keys = several subscriptions, several "
+        "instruments under one key likewise: dedup compares whole subscriptions; the derived Ord is key first). corpus/C13D/cfg_keyed.ops holds hand-written cases. A case is distinct by the SHA-1 of its op lines and non-trivial when two of its ops produce "
         "different observations")
 ASSUMPTIONS = [
     "OBSERVATION POINT (trusted, named explicitly): what an arm body did is read from the fields of three `tracing` events the repository emits before the network "
@@ -41,7 +46,8 @@ ASSUMPTIONS = [
     "sorted and `-` for the Display string; the stable order inside a group IS ascending because validate_subscriptions sorted the batch)",
     "instruments are MarketDataInstrument with asset names a000, a001, .. (`format!(\"a{n:03}\")`; the derived Ord compares the names as strings and so does the model: numeric "
     "order below 1000, a1000 < a999 from there on), integer strikes, whole-millisecond expiries (C13V conventions); only `MarketDataInstrument` is driven "
-    "(the theorems are generic in the instrument type); Keyed / MarketInstrumentData instantiations of init are not",
+    "(the theorems are generic in the instrument type) by op `init`, and Keyed<InstrumentIndex, MarketDataInstrument> by op `initk` (model: Subscribe.KInst / kinstOps, "
+    "order = key first, Display = `InstrumentIndex(k), <instrument>`; spec: a subscription is what the caller wrote, key included); the MarketInstrumentData instantiation of init is not",
     "the spec (oracle) is the README table `Supported Exchange Subscriptions` plus (BinanceFuturesUsd, Perpetual, Liquidations) (C13V), read as: supported batches => every "
     "subscription of a batch initialised once per batch under its own exchange id / kind / instrument, one connection per distinct (exchange, kind) of a batch, nothing else; "
     "otherwise an error and nothing initialised. The spec says nothing about order, URLs, policy, stream keys or the offline outcome; it is computed in the driver from `Spec`'s own "
@@ -127,7 +133,7 @@ LEVEL_NOTE = ("Trusted: Lean kernel (axioms propext/Classical.choice/Quot.sound 
               "every run; 1 000 quick / 10 000 thorough random cases); THE OBSERVATION POINT: the repository's three tracing events before the network are taken as the witness of what an "
               "arm body constructed (a harness-local tracing::Subscriber records their fields; derived Debug / Display texts parsed by the harness). NOT observed offline: the "
               "forwarding of a connected stream into txs.<family> (the model's `chan` is read from the source and proved equal to route kind), the select_* accessors (C13V drives "
-              "them on a hand-built value), Keyed / MarketInstrumentData instantiations. ORACLE: the spec mode prints `calls`, `isub` and `res err` only (from the README table and the "
+              "them on a hand-built value), the MarketInstrumentData instantiation (Keyed<InstrumentIndex, _> is driven by op `initk`). ORACLE: the spec mode prints `calls`, `isub` and `res err` only (from the README table and the "
               "batch-wise sets); it is silent on `ims`, `conn`, `req`, `msg` and on `res ok` / `res network` — URL, policy, stream key, connector marker and the order within a call are "
               "CORRESPONDENCE-ONLY (model vs code). ORDER: the oracle's `isub` lines are a multiset in a canonical order of their own (the printed lines sorted, on both sides), so the "
               "oracle no longer depends on how instruments compare — before the sub-check review both sides sorted them by the instrument order, the model numerically and the code by "
